@@ -228,6 +228,9 @@ def c08(proj, rep, tier):
     nfun, tot = seed.run(proj, rep, ['numqi.random._spf2'])
     rep.floor('seed functions in random._spf2 (rand_pauli)', nfun, 4)
     n = twins.tw(proj, rep, ['numqi.gate._pauli'])
+    n, n6 = round3b.pr1_e6(proj, rep, ['numqi.gate._pauli'] if tier == 'quick' else None)
+    rep.floor('PR1 integer bit-weight constructions (Pauli index conversions)', n, 1)
+    rep.floor('E6 functions converting unicode Pauli-string batches', n6, 2)
     n = round3b.e5(proj, rep)
     rep.floor('E5 scalar index -> F2 phase-bit obligations', n, 2)
     n = kdefects.st2(proj, rep, ['numqi.gate._pauli'] if tier == 'quick' else None)
@@ -582,7 +585,7 @@ def c14(proj, rep, tier):
 MC3_SCOPE = {
     'C01': MANIFOLD, 'C02': MANIFOLD, 'C03': ['numqi.sim', 'numqi.gate._internal'], 'C04': ['numqi.sim', 'numqi._torch_op', 'numqi.qec'],
     'C05': ['numqi.entangle', 'numqi.utils'], 'C06': ['numqi.entangle', 'numqi.gellmann'], 'C07': ['numqi.sim.clifford', 'numqi.gate._pauli'],
-    'C08': ['numqi.gate._pauli', 'numqi.random._spf2'], 'C09': ['numqi.group.spf2', 'numqi.random._spf2'], 'C10': ['numqi.random'],
+    'C08': ['numqi.gate._pauli', 'numqi.random._spf2'], 'C09': ['numqi.group.spf2', 'numqi.random._spf2'], 'C10': ['numqi'],
     'C11': ['numqi.sim.state', 'numqi.sim.circuit'], 'C12': ['numqi.channel', 'numqi.utils'], 'C13': ['numqi.entangle.eof', 'numqi.entangle.measure'],
     'C14': ['numqi.group._symmetric', 'numqi.group._internal'], 'C15': ['numqi.group._lie', 'numqi.matrix_space._clebsch_gordan'], 'C16': ['numqi.gellmann'],
     'C17': ['numqi.dicke', 'numqi.utils'], 'C18': ['numqi.state', 'numqi.entangle.upb', 'numqi.dicke'], 'C19': ['numqi.qec'], 'C20': ['numqi.matrix_space'],
